@@ -495,6 +495,19 @@ pub unsafe extern "C" fn epoll_create1(f: c_int) -> c_int {
     track(r);
     r
 }
+static mut EPCTL_ADD_FAILS_ONCE: bool = false;
+pub fn set_epoll_add_fails_once(b: bool) {
+    unsafe { EPCTL_ADD_FAILS_ONCE = b }
+}
+#[no_mangle]
+pub unsafe extern "C" fn epoll_ctl(ep: c_int, op: c_int, fd: c_int, ev: *mut libc::epoll_event) -> c_int {
+    if S.on && op == libc::EPOLL_CTL_ADD && EPCTL_ADD_FAILS_ONCE {
+        EPCTL_ADD_FAILS_ONCE = false;
+        set_errno(libc::ENOSPC);
+        return -1;
+    }
+    libc::syscall(libc::SYS_epoll_ctl, ep, op, fd, ev) as c_int
+}
 #[no_mangle]
 pub unsafe extern "C" fn epoll_wait(ep: c_int, evs: *mut libc::epoll_event, max: c_int, to: c_int) -> c_int {
     if S.on {
